@@ -56,12 +56,14 @@ package parser
 
 //@ func parser.parse
 //@   tags C04 C09
+//@   linear
 //@   assigns p.curr, p.next, p.lex, fam:G_pos, fam:G_toks
 //@   requires pi: p.curr.Type == tokT(ppos) && p.next.Type == tokT(ppos + 1) && tokOK(p.curr.Type, p.curr.Value) && tokOK(p.next.Type, p.next.Value) && 0 <= p.lex.position && p.lex.position <= len(p.lex.expression)
 //@   ensures[C04] end: result1 == nil ==> p.curr.Type == const("lexer.EndToken") && result0 != nil
 
 //@ func parser.filter
 //@   tags C04 C09
+//@   linear
 //@   assigns p.curr, p.next, p.lex, fam:G_pos, fam:G_toks
 //@   requires pi: p.curr.Type == tokT(ppos) && p.next.Type == tokT(ppos + 1) && tokOK(p.curr.Type, p.curr.Value) && tokOK(p.next.Type, p.next.Value) && 0 <= p.lex.position && p.lex.position <= len(p.lex.expression)
 //@   ensures pi: result1 == nil ==> p.curr.Type == tokT(ppos) && p.next.Type == tokT(ppos + 1) && tokOK(p.curr.Type, p.curr.Value) && tokOK(p.next.Type, p.next.Value) && 0 <= p.lex.position && p.lex.position <= len(p.lex.expression)
@@ -69,6 +71,7 @@ package parser
 
 //@ func parser.expression
 //@   tags C10 C04 C09
+//@   linear
 //@   assigns p.curr, p.next, p.lex, fam:G_pos, fam:G_toks
 //@   requires pi: p.curr.Type == tokT(ppos) && p.next.Type == tokT(ppos + 1) && tokOK(p.curr.Type, p.curr.Value) && tokOK(p.next.Type, p.next.Value) && 0 <= p.lex.position && p.lex.position <= len(p.lex.expression)
 //@   ensures pi: result1 == nil ==> p.curr.Type == tokT(ppos) && p.next.Type == tokT(ppos + 1) && tokOK(p.curr.Type, p.curr.Value) && tokOK(p.next.Type, p.next.Value) && 0 <= p.lex.position && p.lex.position <= len(p.lex.expression)
@@ -84,9 +87,11 @@ package parser
 //@     invariant ppos > old(ppos)
 //@     invariant newPrec == precOf(p.curr.Type)
 //@     invariant node != nil
+//@     invariant[C04 C01 C17] linear: pendingOnly(node)
 
 //@ func parser.primaryExpression
 //@   tags C10 C04 C09
+//@   linear
 //@   assigns p.curr, p.next, p.lex, fam:G_pos, fam:G_toks
 //@   requires pi: p.curr.Type == tokT(ppos) && p.next.Type == tokT(ppos + 1) && tokOK(p.curr.Type, p.curr.Value) && tokOK(p.next.Type, p.next.Value) && 0 <= p.lex.position && p.lex.position <= len(p.lex.expression)
 //@   ensures pi: result1 == nil ==> p.curr.Type == tokT(ppos) && p.next.Type == tokT(ppos + 1) && tokOK(p.curr.Type, p.curr.Value) && tokOK(p.next.Type, p.next.Value) && 0 <= p.lex.position && p.lex.position <= len(p.lex.expression)
@@ -95,6 +100,7 @@ package parser
 
 //@ func parser.projection
 //@   tags C04 C09 C01
+//@   linear
 //@   assigns p.curr, p.next, p.lex, fam:G_pos, fam:G_toks
 //@   requires pi: p.curr.Type == tokT(ppos) && p.next.Type == tokT(ppos + 1) && tokOK(p.curr.Type, p.curr.Value) && tokOK(p.next.Type, p.next.Value) && 0 <= p.lex.position && p.lex.position <= len(p.lex.expression)
 //@   ensures pi: result1 == nil ==> p.curr.Type == tokT(ppos) && p.next.Type == tokT(ppos + 1) && tokOK(p.curr.Type, p.curr.Value) && tokOK(p.next.Type, p.next.Value) && 0 <= p.lex.position && p.lex.position <= len(p.lex.expression)
@@ -102,9 +108,11 @@ package parser
 //@   ensures none: result1 == nil && result0 == nil ==> ppos == old(ppos) && toks() == old(toks())
 //@   loop 1
 //@     invariant p.curr.Type == tokT(ppos) && p.next.Type == tokT(ppos + 1) && tokOK(p.curr.Type, p.curr.Value) && tokOK(p.next.Type, p.next.Value) && 0 <= p.lex.position && p.lex.position <= len(p.lex.expression) && ppos > old(ppos) && newPrec == precOf(p.curr.Type) && node != nil
+//@     invariant[C04 C01 C17] linear: pendingOnly(node)
 
 //@ func parser.index
 //@   tags C04 C09 C12
+//@   linear
 //@   assigns p.curr, p.next, p.lex, fam:G_pos, fam:G_toks
 //@   requires pi: p.curr.Type == tokT(ppos) && p.next.Type == tokT(ppos + 1) && tokOK(p.curr.Type, p.curr.Value) && tokOK(p.next.Type, p.next.Value) && 0 <= p.lex.position && p.lex.position <= len(p.lex.expression)
 //@   ensures pi: result2 == nil ==> p.curr.Type == tokT(ppos) && p.next.Type == tokT(ppos + 1) && tokOK(p.curr.Type, p.curr.Value) && tokOK(p.next.Type, p.next.Value) && 0 <= p.lex.position && p.lex.position <= len(p.lex.expression)
@@ -112,35 +120,41 @@ package parser
 
 //@ func parser.selectArray
 //@   tags C04 C09
+//@   linear
 //@   assigns p.curr, p.next, p.lex, fam:G_pos, fam:G_toks
 //@   requires pi: p.curr.Type == tokT(ppos) && p.next.Type == tokT(ppos + 1) && tokOK(p.curr.Type, p.curr.Value) && tokOK(p.next.Type, p.next.Value) && 0 <= p.lex.position && p.lex.position <= len(p.lex.expression)
 //@   ensures pi: result1 == nil ==> p.curr.Type == tokT(ppos) && p.next.Type == tokT(ppos + 1) && tokOK(p.curr.Type, p.curr.Value) && tokOK(p.next.Type, p.next.Value) && 0 <= p.lex.position && p.lex.position <= len(p.lex.expression)
 //@   ensures[C04] close: result1 == nil ==> tokT(ppos - 1) == const("lexer.CloseSqBraceToken") && ppos > old(ppos) && result0 != nil
 //@   loop 1
+//@     invariant[C04 C01 C17] linear: pendingOnly()
 //@     invariant p.curr.Type == tokT(ppos) && p.next.Type == tokT(ppos + 1) && tokOK(p.curr.Type, p.curr.Value) && tokOK(p.next.Type, p.next.Value) && 0 <= p.lex.position && p.lex.position <= len(p.lex.expression) && fresh(fields)
 //@     invariant forall k Int :: 0 <= k && k < len(fields) ==> fields[k] != nil
 //@     invariant[C04] separator: ppos == old(ppos) || (tokT(ppos - 1) == const("lexer.CommaToken") && ppos > old(ppos))
 
 //@ func parser.selectObject
 //@   tags C04 C09
+//@   linear
 //@   assigns p.curr, p.next, p.lex, fam:G_pos, fam:G_toks
 //@   requires pi: p.curr.Type == tokT(ppos) && p.next.Type == tokT(ppos + 1) && tokOK(p.curr.Type, p.curr.Value) && tokOK(p.next.Type, p.next.Value) && 0 <= p.lex.position && p.lex.position <= len(p.lex.expression)
 //@   ensures pi: result1 == nil ==> p.curr.Type == tokT(ppos) && p.next.Type == tokT(ppos + 1) && tokOK(p.curr.Type, p.curr.Value) && tokOK(p.next.Type, p.next.Value) && 0 <= p.lex.position && p.lex.position <= len(p.lex.expression)
 //@   ensures[C04] close: result1 == nil ==> tokT(ppos - 1) == const("lexer.CloseBraceToken") && ppos > old(ppos) && result0 != nil
 //@   at advance2#1 assert[C04] key: p.curr.Type == const("lexer.QuotedIdentifierToken") || p.curr.Type == const("lexer.UnquotedIdentifierToken")
 //@   loop 1
+//@     invariant[C04 C01 C17] linear: pendingOnly()
 //@     invariant fresh(fields) && fields != nil && (forall k Int :: hasKey(fields, k) ==> getKey(fields, k) != nil)
 //@     invariant p.curr.Type == tokT(ppos) && p.next.Type == tokT(ppos + 1) && tokOK(p.curr.Type, p.curr.Value) && tokOK(p.next.Type, p.next.Value) && 0 <= p.lex.position && p.lex.position <= len(p.lex.expression)
 //@     invariant[C04] separator: ppos == old(ppos) || (tokT(ppos - 1) == const("lexer.CommaToken") && ppos > old(ppos))
 
 //@ func parser.let
 //@   tags C04 C09 C19
+//@   linear
 //@   assigns p.curr, p.next, p.lex, fam:G_pos, fam:G_toks
 //@   requires pi: p.curr.Type == tokT(ppos) && p.next.Type == tokT(ppos + 1) && tokOK(p.curr.Type, p.curr.Value) && tokOK(p.next.Type, p.next.Value) && 0 <= p.lex.position && p.lex.position <= len(p.lex.expression)
 //@   ensures pi: result1 == nil ==> p.curr.Type == tokT(ppos) && p.next.Type == tokT(ppos + 1) && tokOK(p.curr.Type, p.curr.Value) && tokOK(p.next.Type, p.next.Value) && 0 <= p.lex.position && p.lex.position <= len(p.lex.expression)
 //@   ensures[C09] progress: result1 == nil ==> ppos > old(ppos) && result0 != nil
 //@   at advance2#1 assert[C04 C19] binding: p.curr.Type == const("lexer.VariableToken") && p.next.Type == const("lexer.AssignToken")
 //@   loop 1
+//@     invariant[C04 C01 C17] linear: pendingOnly()
 //@     invariant fresh(variables) && variables != nil && (forall k Int :: hasKey(variables, k) ==> getKey(variables, k) != nil)
 //@     invariant p.curr.Type == tokT(ppos) && p.next.Type == tokT(ppos + 1) && tokOK(p.curr.Type, p.curr.Value) && tokOK(p.next.Type, p.next.Value) && 0 <= p.lex.position && p.lex.position <= len(p.lex.expression)
 //@     invariant[C04] separator: ppos == old(ppos) || (tokT(ppos - 1) == const("lexer.CommaToken") && ppos > old(ppos))
@@ -150,6 +164,7 @@ package parser
 
 //@ func parser.function1Arg
 //@   tags C02 C04 C08 C09
+//@   linear
 //@   at new:unexpectedTokenError#* assert[C02 C08] arity.sep: p.curr.Type != const("lexer.CloseParenToken") && p.curr.Type != const("lexer.CommaToken")
 //@   at new:InvalidFunctionCallError#* assert[C02 C08] arity.only: p.curr.Type == const("lexer.CloseParenToken") || p.curr.Type == const("lexer.CommaToken")
 //@   assigns p.curr, p.next, p.lex, fam:G_pos, fam:G_toks
@@ -160,6 +175,7 @@ package parser
 
 //@ func parser.function1To2Arg
 //@   tags C02 C04 C08 C09
+//@   linear
 //@   at new:unexpectedTokenError#* assert[C02 C08] arity.sep: p.curr.Type != const("lexer.CloseParenToken") && p.curr.Type != const("lexer.CommaToken")
 //@   at new:InvalidFunctionCallError#* assert[C02 C08] arity.only: p.curr.Type == const("lexer.CloseParenToken") || p.curr.Type == const("lexer.CommaToken")
 //@   assigns p.curr, p.next, p.lex, fam:G_pos, fam:G_toks
@@ -171,6 +187,7 @@ package parser
 
 //@ func parser.function2Arg
 //@   tags C02 C04 C08 C09
+//@   linear
 //@   at new:unexpectedTokenError#* assert[C02 C08] arity.sep: p.curr.Type != const("lexer.CloseParenToken") && p.curr.Type != const("lexer.CommaToken")
 //@   at new:InvalidFunctionCallError#* assert[C02 C08] arity.only: p.curr.Type == const("lexer.CloseParenToken") || p.curr.Type == const("lexer.CommaToken")
 //@   assigns p.curr, p.next, p.lex, fam:G_pos, fam:G_toks
@@ -182,6 +199,7 @@ package parser
 
 //@ func parser.function2ExpArg
 //@   tags C02 C04 C08 C09
+//@   linear
 //@   at new:unexpectedTokenError#* assert[C02 C08] arity.sep: p.curr.Type != const("lexer.CloseParenToken") && p.curr.Type != const("lexer.CommaToken")
 //@   at new:InvalidFunctionCallError#* assert[C02 C08] arity.only: p.curr.Type == const("lexer.CloseParenToken") || p.curr.Type == const("lexer.CommaToken")
 //@   assigns p.curr, p.next, p.lex, fam:G_pos, fam:G_toks
@@ -193,6 +211,7 @@ package parser
 
 //@ func parser.function2MapArg
 //@   tags C02 C04 C08 C09
+//@   linear
 //@   at new:unexpectedTokenError#* assert[C02 C08] arity.sep: p.curr.Type != const("lexer.CloseParenToken") && p.curr.Type != const("lexer.CommaToken")
 //@   at new:InvalidFunctionCallError#* assert[C02 C08] arity.only: p.curr.Type == const("lexer.CloseParenToken") || p.curr.Type == const("lexer.CommaToken")
 //@   assigns p.curr, p.next, p.lex, fam:G_pos, fam:G_toks
@@ -204,6 +223,7 @@ package parser
 
 //@ func parser.function2To3Arg
 //@   tags C02 C04 C08 C09
+//@   linear
 //@   at new:unexpectedTokenError#* assert[C02 C08] arity.sep: p.curr.Type != const("lexer.CloseParenToken") && p.curr.Type != const("lexer.CommaToken")
 //@   at new:InvalidFunctionCallError#* assert[C02 C08] arity.only: p.curr.Type == const("lexer.CloseParenToken") || p.curr.Type == const("lexer.CommaToken")
 //@   assigns p.curr, p.next, p.lex, fam:G_pos, fam:G_toks
@@ -215,6 +235,7 @@ package parser
 
 //@ func parser.function2To4Arg
 //@   tags C02 C04 C08 C09
+//@   linear
 //@   at new:unexpectedTokenError#* assert[C02 C08] arity.sep: p.curr.Type != const("lexer.CloseParenToken") && p.curr.Type != const("lexer.CommaToken")
 //@   at new:InvalidFunctionCallError#* assert[C02 C08] arity.only: p.curr.Type == const("lexer.CloseParenToken") || p.curr.Type == const("lexer.CommaToken")
 //@   assigns p.curr, p.next, p.lex, fam:G_pos, fam:G_toks
@@ -226,6 +247,7 @@ package parser
 
 //@ func parser.function3To4Arg
 //@   tags C02 C04 C08 C09
+//@   linear
 //@   at new:unexpectedTokenError#* assert[C02 C08] arity.sep: p.curr.Type != const("lexer.CloseParenToken") && p.curr.Type != const("lexer.CommaToken")
 //@   at new:InvalidFunctionCallError#* assert[C02 C08] arity.only: p.curr.Type == const("lexer.CloseParenToken") || p.curr.Type == const("lexer.CommaToken")
 //@   assigns p.curr, p.next, p.lex, fam:G_pos, fam:G_toks
@@ -237,6 +259,7 @@ package parser
 
 //@ func parser.functionVarArg
 //@   tags C02 C04 C08 C09
+//@   linear
 //@   at new:unexpectedTokenError#* assert[C02 C08] arity.sep: p.curr.Type != const("lexer.CloseParenToken") && p.curr.Type != const("lexer.CommaToken")
 //@   at new:InvalidFunctionCallError#* assert[C02 C08] arity.only: p.curr.Type == const("lexer.CloseParenToken") || p.curr.Type == const("lexer.CommaToken")
 //@   assigns p.curr, p.next, p.lex, fam:G_pos, fam:G_toks
@@ -246,12 +269,14 @@ package parser
 //@   ensures[C03] args: result1 == nil ==> (forall k Int :: 0 <= k && k < len(result0) ==> result0[k] != nil)
 //@   ensures[C02 C08] noargs: old(p.curr.Type) == const("lexer.CloseParenToken") ==> isType(result1, "*github.com/woodsbury/jmespath/internal/parser.InvalidFunctionCallError")
 //@   loop 1
+//@     invariant[C04 C01 C17] linear: pendingOnly()
 //@     invariant p.curr.Type == tokT(ppos) && p.next.Type == tokT(ppos + 1) && tokOK(p.curr.Type, p.curr.Value) && tokOK(p.next.Type, p.next.Value) && 0 <= p.lex.position && p.lex.position <= len(p.lex.expression) && fresh(nodes)
 //@     invariant forall k Int :: 0 <= k && k < len(nodes) ==> nodes[k] != nil
 //@     invariant[C04] separator: (ppos == old(ppos) && len(nodes) == 0) || (tokT(ppos - 1) == const("lexer.CommaToken") && ppos > old(ppos) && len(nodes) >= 1)
 
 //@ func parser.function
 //@   tags C02 C04 C08 C09
+//@   linear
 //@   assigns p.curr, p.next, p.lex, fam:G_pos, fam:G_toks
 //@   requires pi: p.curr.Type == tokT(ppos) && p.next.Type == tokT(ppos + 1) && tokOK(p.curr.Type, p.curr.Value) && tokOK(p.next.Type, p.next.Value) && 0 <= p.lex.position && p.lex.position <= len(p.lex.expression)
 //@   requires call: p.next.Type == const("lexer.OpenParenToken")
